@@ -262,6 +262,65 @@ def rule_R7(text, k, log, where):
     return text[:sig[kw].start] + new_head + '{\n        ' + let + text[sig[bo].end:]
 
 
+
+def rule_R9(text, log, where):
+    """adts_to_raw only: drop the diagnostic closure `let create_hex_dump = |..| -> String {..};` and replace every
+    struct literal `AdtsValidationError { kind: K, .. }` by `v_adts_error(K)` (opaque constructor).
+    Branch conditions, the order of checks and the Ok value are untouched."""
+    toks = lex(text)
+    sig = sig_tokens(toks)
+    cuts = []   # (start, end, replacement)
+    i = 0
+    while i < len(sig):
+        t = sig[i]
+        if t.kind == 'ident' and t.text == 'let' and i + 1 < len(sig) and sig[i + 1].text == 'create_hex_dump':
+            # find terminating ';' at depth 0
+            k = i
+            while k < len(sig) and sig[k].text != ';':
+                if sig[k].text in ('(', '[', '{'):
+                    k = match_close(sig, k)
+                k += 1
+            cuts.append((t.start, sig[k].end, '/* R9: diagnostic closure create_hex_dump dropped */'))
+            i = k + 1
+            continue
+        if t.kind == 'ident' and t.text == 'AdtsValidationError' and i + 1 < len(sig) and sig[i + 1].text == '{':
+            e = match_close(sig, i + 1)
+            # find `kind :` at depth 1
+            k = i + 2
+            kind_expr = None
+            depth = 0
+            while k < e:
+                x = sig[k]
+                if x.text in ('(', '[', '{'):
+                    k = match_close(sig, k) + 1
+                    continue
+                if x.kind == 'ident' and x.text == 'kind' and sig[k + 1].text == ':':
+                    q = k + 2
+                    while q < e and sig[q].text != ',':
+                        if sig[q].text in ('(', '[', '{'):
+                            q = match_close(sig, q)
+                        q += 1
+                    kind_expr = text[sig[k + 2].start:sig[q - 1].end]
+                    break
+                k += 1
+            if kind_expr is None:
+                raise ExtractError('R9: struct literal without kind in ' + where)
+            cuts.append((t.start, sig[e].end, 'v_adts_error(%s)' % kind_expr))
+            i = e + 1
+            continue
+        i += 1
+    if not cuts:
+        raise ExtractError('R9: nothing to rewrite in ' + where)
+    out = []
+    pos = 0
+    for a, b, rep in cuts:
+        out.append(text[pos:a])
+        out.append(rep)
+        pos = b
+    out.append(text[pos:])
+    log.append(('R9', where, 'diagnostic closure dropped; %d AdtsValidationError literals -> v_adts_error(kind)' % (len(cuts) - 1)))
+    return ''.join(out)
+
 def rule_R5(text, log, where):
     """method of `impl Iterator for T` is emitted as inherent method: Self::Item -> concrete type given by template."""
     return text
@@ -305,6 +364,8 @@ def splice_function(src_text, spec, log, where):
             text = rule_R6(text, int(r[1]), r[2] if len(r) > 2 else 'it', log, where)
         elif rid == 'R7':
             text = rule_R7(text, int(r[1]), log, where)
+        elif rid == 'R9' and len(r) == 1:
+            text = rule_R9(text, log, where)
         elif rid in ('R5', 'R8', 'R9', 'R10', 'R11', 'R12', 'R13'):
             # //@ rule R9 <<old>> ==> <<new>>
             body = ' '.join(r[1:])
